@@ -25,11 +25,11 @@ REPO = "/repo"
 
 FILES = {
     "prosemirror/transform/map.py": ["C08", "C03", "C17"],
-    "prosemirror/transform/step.py": ["C01", "C04"],
-    "prosemirror/transform/replace_step.py": ["C01", "C03", "C04", "C16"],
-    "prosemirror/transform/mark_step.py": ["C13", "C16", "C04"],
-    "prosemirror/transform/attr_step.py": ["C13", "C04"],
-    "prosemirror/transform/doc_attr_step.py": ["C13", "C04"],
+    "prosemirror/transform/step.py": ["C01", "C04", "C05"],
+    "prosemirror/transform/replace_step.py": ["C01", "C03", "C04", "C16", "C17", "C05"],
+    "prosemirror/transform/mark_step.py": ["C13", "C16", "C04", "C17", "C05"],
+    "prosemirror/transform/attr_step.py": ["C13", "C04", "C17", "C05"],
+    "prosemirror/transform/doc_attr_step.py": ["C13", "C04", "C05"],
     "prosemirror/transform/structure.py": ["C12", "C18"],
     "prosemirror/transform/replace.py": ["C11", "C18", "C12"],
     "prosemirror/transform/transform.py": ["C11", "C12", "C13", "C18"],
